@@ -88,6 +88,7 @@ def run_case(case):
     labels = set()
     nontrivial = False
     ctor = case.get("ctor")
+    twin = twin_src = None
     if ctor is None:
         pl = ParameterList()
     else:
@@ -103,6 +104,10 @@ def run_case(case):
             labels.add("ctor-rejected")
         pl = ParameterList(d)
         decl = list(d.items())
+        twin_src = d                      # the caller keeps using the dict it passed in: a second list is built from it,
+        twin = ParameterList(d)           # and the dict itself is edited afterwards - none of this may reach `pl`
+        twin_decl = list(d.items())
+        d_snapshot = list(d.items())
     for name, val in decl:
         held[name] = (val, snapshot_value(val))
 
@@ -149,6 +154,20 @@ def run_case(case):
             labels.add("no-parameters")
 
     verify("after construction")
+
+    def verify_twin(where):
+        if twin is None:
+            return
+        if list(twin_src.items()) != d_snapshot:
+            raise Violation("caller-dict-mutated", f"{where}: the dict passed to the constructor changed from {[n for n, _ in d_snapshot]} to "
+                                                   f"{list(twin_src)}")
+        exp = product(twin_decl)
+        got = twin.build()
+        if len(got) != len(exp) or any(set(g) != set(e) or any(not same_value(g[n], e[n]) for n in e) for g, e in zip(got, exp)):
+            raise Violation("lists-share-state", f"{where}: a second ParameterList built from the same constructor dict now builds "
+                                                 f"{len(got)} combinations with names {sorted(got[0]) if got else []}, expected {len(exp)} with "
+                                                 f"{[n for n, _ in twin_decl]}")
+
     for k, op in enumerate(case.get("ops", [])):
         where = f"after op {k} {op}"
         names = [n for n, _ in decl]
@@ -179,6 +198,10 @@ def run_case(case):
         else:
             raise InvalidCase(op)
         verify(where)
+        verify_twin(where)
+    if twin is not None:                       # finally the caller edits its own dict: the list must not notice
+        twin_src["\x00late-key"] = [1, 2, 3]
+        verify("after the caller added a key to the dict it had passed to the constructor")
     for _, v in decl:
         labels.add("v-" + snapshot_value(v)[0])
     return {"nontrivial": nontrivial, "labels": sorted(labels)}
@@ -204,3 +227,25 @@ def strategy(tier):
                    st.fixed_dictionaries({"op": st.just("bad_name"), "kind": st.sampled_from(["int", "none", "tuple", "bytes"])}))
     ctor = wone_of(st.none(), st.lists(st.tuples(name, val).map(list), max_size=4))
     return st.fixed_dictionaries({"ctor": ctor, "ctor_bad_key": st.booleans(), "ops": sized_lists(op, 0, 10)})
+
+
+EXHAUSTIVE_DOMAIN = ("every declaration of 0..3 parameters (names a, b, c in that order) over the value shapes {scalar 7, str 'xy', "
+                     "empty list, [1], [1, 2], tuple (1, 1, 2), range(2), int array [3, 4]} given through the constructor, and the same "
+                     "through add_parameter; thorough: additionally every single remove + re-add of one of them")
+
+
+def exhaustive(tier):
+    import itertools
+    shapes = [{"k": "scalar", "v": 7}, {"k": "str", "v": "xy"}, {"k": "list", "v": []}, {"k": "list", "v": [1]}, {"k": "list", "v": [1, 2]},
+              {"k": "tuple", "v": [1, 1, 2]}, {"k": "range", "v": 2}, {"k": "array", "v": [3, 4]}]
+    names = ["a", "b", "c"]
+    for n in range(0, 4):
+        for combo in itertools.product(shapes, repeat=n):
+            decl = [[names[i], combo[i]] for i in range(n)]
+            yield {"ctor": decl, "ctor_bad_key": False, "ops": []}
+            yield {"ctor": None, "ctor_bad_key": False, "ops": [{"op": "add", "name": nm, "val": v} for nm, v in decl]}
+            if tier != "quick" and n >= 2:
+                for i in range(n):
+                    for v in (shapes[4], shapes[2]):
+                        yield {"ctor": decl, "ctor_bad_key": False,
+                               "ops": [{"op": "remove", "i": i, "unknown": False}, {"op": "add", "name": names[i], "val": v}]}
